@@ -103,12 +103,13 @@ def is_point(pt, d):
 class TreeRec:
     """Observes one Partition object (structure + per-cell evidence)."""
 
-    def __init__(self, partition, arity, events, extractor=None, tag=None):
+    def __init__(self, partition, arity, events, extractor=None, tag=None, mk_fields=False):
         self.part = partition
         self.K = arity
         self.events = events
         self.extract = extractor
         self.tag = tag
+        self.mk_fields = mk_fields
         self.nodes = []  # id-1 -> node object (kept alive, so id() is never reused)
         self.ids = {}  # id(node) -> cell id
         self.kids = {}  # id -> tuple of kid ids
@@ -254,7 +255,7 @@ class TreeRec:
             if exc is not None:
                 ev["exc"] = type(exc).__name__
             ch = parent.get_children() if exc is None else None
-            self.scan(ev, first=tuple(ch) if ch else (), local_parent=parent if len(self.nodes) > self.FULL_SCAN_MAX else None, fields=False)
+            self.scan(ev, first=tuple(ch) if ch else (), local_parent=parent if len(self.nodes) > self.FULL_SCAN_MAX and not self.mk_fields else None, fields=self.mk_fields)
             self.events.append(ev)
 
     # -- diff -------------------------------------------------------------------
@@ -385,7 +386,7 @@ class TreeRec:
 class SessionRec:
     """Drives one algorithm instance through its public interface and records a trace."""
 
-    def __init__(self, algo, P, extractor=None, call_timeout=20, scalars=None, tid=None, tree=True, S=8192, RU=64):
+    def __init__(self, algo, P, extractor=None, call_timeout=20, scalars=None, tid=None, tree=True, S=8192, RU=64, mk_fields=False):
         self.algo = algo
         self.P = dict(P)
         self.S = S
@@ -400,7 +401,7 @@ class SessionRec:
         from PyXAB.partition.Partition import Partition
 
         if tree and isinstance(getattr(algo, "partition", None), Partition):
-            self.tree = TreeRec(algo.partition, P["arity"], self.events, extractor)
+            self.tree = TreeRec(algo.partition, P["arity"], self.events, extractor, mk_fields=mk_fields)
             self.events.append(self.tree.init_event)
         else:
             self.events.append({"k": "init0"})
